@@ -50,6 +50,11 @@ R3_TRIAGED: dict[tuple[str, str], str] = {
 }
 
 
+IMPLICIT_TRIAGED = {
+    ('exabgp.bgp.message.notification.Notify.__init__', 'UnicodeEncodeError'): 'text of locally raised notifications: the decode-side messages interpolate numbers and hex dumps only',
+}
+
+
 def decode_roots(model: Model) -> list[str]:
     roots = [MESSAGE_UNPACK] + [q for q in model.funcs if q.endswith('.unpack_message') and '.bgp.message.' in q]
     roots += [r for r in LAZY_ROOTS if r in model.funcs]
@@ -253,6 +258,34 @@ def check(model: Model, run: Run) -> None:
                 'NOTIFICATION 1/0 (or, for lazily parsed parts, it surfaces outside the barrier)' % plain(b),
                 w,
             )
+
+    # ------------------------------------------------------------------ R6 implicit raisers
+    run.rule(
+        'C03.R6',
+        'no decode-reachable function decodes/encodes peer text with a strict codec (bytes.decode / str.encode / bytes(s, enc) '
+        'without errors=, int(<str>)) outside a handler for the error it raises',
+        floor=1,
+    )
+    from .common import implicit_raise_sites
+
+    n_scan = 0
+    for q in sorted(dec):
+        f = model.funcs[q]
+        n_scan += 1
+        for call, label in implicit_raise_sites(model, f):
+            key = (q, label)
+            if key in IMPLICIT_TRIAGED:
+                run.ok('%s: %s' % (short(q), norm(call)[:50]), 'triaged: ' + IMPLICIT_TRIAGED[key])
+                continue
+            run.violation(
+                q,
+                'unguarded %s can raise %s' % (norm(call)[:60], label),
+                f.loc(call),
+                'a strict codec applied on the decode path raises %s for peer-chosen bytes; it is not a Notify, so the '
+                'reactor answers NOTIFICATION 1/0 for input the RFCs may allow' % label,
+                ['decode path: ' + ' -> '.join(short(x) for x in cg.path(pred, q))],
+            )
+    run.check(n_scan >= 300, MESSAGE_UNPACK, 'implicit-raiser scan over %d decode-reachable functions' % n_scan, model.func(MESSAGE_UNPACK).loc(), 'scan floor')
 
     # ------------------------------------------------------------------ R4 barriers
     run.rule(
